@@ -92,7 +92,7 @@ def gen_series(r, tier='quick', **force):
                     tab[k][(s, t, v)] = code
     normal = np.cross(rowc, colc)
     acq_pat = force.get('acq', r.choice(['asc', 'desc', 'interleaved', 'irregular', 'equal', 'inconsistent', 'none', 'partial',
-                                         'one_inconsistent']))
+                                         'one_inconsistent', 'other_pace']))
     tr_pat = r.choice(['same', 'same', 'vary', 'none', 'jitter', 'partial'])
     if ordering in ('guess_vol', 'guess_file', 'none') and tr_pat in ('vary', 'jitter'):
         tr_pat = 'same'
@@ -101,7 +101,7 @@ def gen_series(r, tier='quick', **force):
                'interleaved': [(i // 2 if i % 2 == 0 else (S + 1) // 2 + i // 2) for i in range(S)],
                'irregular': [r.randint(0, 5) for _ in range(S)], 'equal': [0] * S,
                'inconsistent': list(range(S)), 'none': None, 'partial': list(range(S)),
-               'one_inconsistent': list(range(S))}[acq_pat]
+               'one_inconsistent': list(range(S)), 'other_pace': list(range(S))}[acq_pat]
     # 'one_inconsistent': a single volume, neither the first nor (with three or more volumes) the
     # last, was acquired in the opposite slice order
     odd_vol = 1 if T * V >= 3 else T * V - 1
@@ -141,7 +141,9 @@ def gen_series(r, tier='quick', **force):
                         st = S - 1 - st
                     if acq_pat == 'one_inconsistent' and (t + T * v) == odd_vol and T * V > 1:
                         st = S - 1 - st
-                    sec = 36000 + 100 * (t + T * v) + st * 0.5
+                    # 'other_pace': the same slice order in every volume, another pace in the odd ones
+                    pace = 1.25 if (acq_pat == 'other_pace' and (t + T * v) % 2 == 1) else 0.5
+                    sec = 36000 + 100 * (t + T * v) + st * pace
                     meta['AcquisitionTime'] = '%02d%02d%02d.%06d' % (sec // 3600, (sec % 3600) // 60, int(sec % 60),
                                                                    int(round((sec % 1) * 1e6)))
                 if tr_pat == 'same':
